@@ -6,12 +6,12 @@ enum { EV_OP = 1, EV_OP_RET, EV_HOOK_START, EV_HOOK_STOP, EV_CB, EV_LATE, EV_FAU
 enum { OP_CREATE = 1, OP_THREADS_CREATE, OP_ATTACH_FIRST, OP_SENDERS_START, OP_SENDERS_STOP, OP_ARM_EVENTS,
        OP_SHUTDOWN_MAIN, OP_SHUTDOWN_EXT, OP_SHUTDOWN_POOL, OP_WAIT_MAIN, OP_WAIT_POOL, OP_DESTROY_MAIN, OP_DESTROY_POOL,
        OP_SLEEP_US, OP_GO /* release the concurrent shutdown callers */, OP_JOIN_HELPERS, OP_THREADS_CREATE_AGAIN,
-       OP_GATE /* park worker arg inside a callback */, OP_FLOOD /* fill worker arg's queue until EAGAIN */, OP_UNGATE };
+       OP_GATE /* park worker arg inside a callback */, OP_FLOOD /* fill worker arg's queue until EAGAIN */, OP_UNGATE, OP_WAIT_T0 /* wait until thread 0 ran its start hook */ };
 enum { FK_NONE = 0, FK_CALLOC, FK_EPOLL_CREATE, FK_PIPE2, FK_EPOLL_CTL, FK_PTHREAD_CREATE, FK__N };
 
 static tp_p g_tp;
 static unsigned g_pool;
-static volatile int g_destroyed, g_stop_senders, g_go;
+static volatile int g_destroyed, g_stop_senders, g_go, g_t0_started;
 static volatile uint64_t g_cb_total, g_rc_pool_op, g_pool_op_done;
 
 /* ---- fault injection: fail the k-th call of one kind while armed */
@@ -45,9 +45,12 @@ int __wrap_pthread_create(pthread_t *t, const pthread_attr_t *a, void *(*fn)(voi
 static void on_start(tpt_p tpt) {
 	size_t num = tpt_get_num(tpt);
 	if (tpt_get_current() == tpt) tm_tid = (uint32_t)num;
+	if (0 == num) __atomic_store_n(&g_t0_started, 1, __ATOMIC_RELEASE);
 	TM_LOG(EV_HOOK_START, (uint16_t)__atomic_load_n(&g_destroyed, __ATOMIC_RELAXED), num, (uint64_t)(uintptr_t)tpt_get_tp(tpt), 0);
 }
+static unsigned g_stop_hook_sleep_us;
 static void on_stop(tpt_p tpt) {
+	if (g_stop_hook_sleep_us && tpt_get_current() == tpt) { struct timespec ts = {0, (long)g_stop_hook_sleep_us * 1000}; nanosleep(&ts, NULL); }
 	TM_LOG(EV_HOOK_STOP, (uint16_t)__atomic_load_n(&g_destroyed, __ATOMIC_RELAXED), tpt_get_num(tpt), (uint64_t)(uintptr_t)tpt_get_tp(tpt), 0);
 }
 static inline void any_cb(int what) {
@@ -135,7 +138,7 @@ int main(void) {
 	in.p = c; in.n = len; in.o = 0; in.bad = 0;
 	seed = vin_u64(&in); g_pool = vin_u8(&in); flags = vin_u32(&in);
 	tm_perturb_permille = vin_u16(&in); tm_sleep_max_us = vin_u16(&in); tm_point_mask = vin_u64(&in);
-	g_fk_kind = vin_u8(&in); g_fk_k = vin_u32(&in);
+	g_fk_kind = vin_u8(&in); g_fk_k = vin_u32(&in); g_stop_hook_sleep_us = vin_u32(&in);
 	nops = vin_u16(&in);
 	tm_scn_seed = seed; tm_tid = 999;
 	/* warm up lazily-created process-wide state (sanitizer background thread) before the baseline */
@@ -226,6 +229,9 @@ int main(void) {
 			if (!created) break;
 			{ unsigned n; int frc = 0; for (n = 0; n < 6000 && 0 == (frc = tpt_msg_send(tp_thread_get(g_tp, arg % g_pool), NULL, 0, msg_cb, NULL)); n++) { }
 			  TM_LOG(EV_NOTE, 3, n, 0, frc); }
+			break;
+		case OP_WAIT_T0:
+			{ uint64_t t0 = tm_now(); while (!__atomic_load_n(&g_t0_started, __ATOMIC_ACQUIRE) && tm_now() - t0 < 10000000000ull) sched_yield(); }
 			break;
 		case OP_UNGATE:
 			while (gates) { sem_post(&g_gate_sem); gates--; }
